@@ -117,7 +117,8 @@ def Spec_agg(views, fact, weights, ignore_missing, agg, shape=None, N=None, _cel
                 ok = [r for r in rows if vw[r]]
             else:
                 ok = [r for r in rows if vf[r][m] and vw[r]]
-            bad = [r for r in rows if r not in ok]
+            okset = set(ok)
+            bad = [r for r in rows if r not in okset]
             if not rows:
                 miss = True
             elif ignore_missing:
